@@ -394,13 +394,15 @@ func dotUnmarshal(data []byte, g dotView) error {
 // ---- value generation ----
 
 var dotAtoms = []string{"a", "b", "x", "Z", "0", "1", "7", " ", "\"", "\\", "-", ">", "{", "}", "[", "]", ";", ",", "=", "\n", "é",
-	"_", ".", ":", "/", "#", "<", "+", "\t", "<b>", "node"}
+	"_", ".", ":", "/", "#", "<", "+", "\t", "<b>", "node", "'", "`"}
 
 var dotSpecials = []string{"node", "edge", "graph", "digraph", "subgraph", "strict", "Node", "GRAPH", "sTrIcT",
 	"1", "-1", ".5", "1.", "-.5", "1.5", "007", "1e5", "0x1F", "1.2.3", "-", "--", "->", "- >",
 	"<b>", "<b>x</b>", "<<i>y</i>>", "<>", "<a b=\"c\">", "\"<b>\"",
 	"a b", "a\"b", "\\", "\\\"", "\"", "\"\"", "\"a\"", "a\\", "\\n", "\\N", "a\nb", "\n",
-	"n", "ne", "_", "c", "sw", "é", "été", "//", "/*", "/* x */", "#", "a+b", "a:b", "a=b", "[", "]", "{", "}", ";", ","}
+	"n", "ne", "_", "c", "sw", "é", "été", "//", "/*", "/* x */", "#", "a+b", "a:b", "a=b", "[", "]", "{", "}", ";", ",",
+	// texts that strconv.Unquote accepts although they are not double-quoted
+	"'a'", "'\\n'", "'\"'", "`b c`", "``", "`a`", "'", "`"}
 
 var dotHTML = []string{"<b>", "<b>x</b>", "<<i>y</i>>", "<>", "<a b=\"c\">", "<<table><tr><td>é</td></tr></table>>", "< >", "<\n>", "<->", "<b>-><b>", "<<b>><b>>", "<node>", "<1>"}
 
